@@ -154,6 +154,14 @@ class DictProxy(dict):
         return (validated_key, validated_value)
 
     def setdefault(self, key: Any, value: Any = None) -> Any:
+        try:
+            present = self.key_field.validate(self.cfg, key)
+            if present in self:
+                # like dict.setdefault: an entry that is there is returned, the default is not used
+                return self[present]
+        except Exception:  # pylint: disable=broad-except
+            pass  # a key that is not acceptable is rejected below, with the entry's path
+
         key, value = self._validate(key, value)
         return super().setdefault(key, value)
 
